@@ -184,6 +184,16 @@ def _flow_block(blocks, n, st, only_term=False):
             m = a0["l"]
             if cn.endswith("as std::ops::Try>::branch") and st.get(m) in ("Ok", "Err", "Some", "None"):
                 st[l] = "Continue" if st[m] in ("Ok", "Some") else "Break"
+            elif cn.endswith(("bool>::then_some", "bool>::then")) and ("bool", m) in st:
+                # `b.then_some(v)` / `b.then(|| v)`: Some exactly when b
+                st[l] = "Some" if st[("bool", m)] else "None"
+                st[("adt", l)] = "std::option::Option"
+            elif cn.startswith("std::option::Option::<T>::ok_or") and st.get(m) in ("Some", "None"):
+                st[l] = "Ok" if st[m] == "Some" else "Err"
+                st[("adt", l)] = "std::result::Result"
+            elif cn in ("std::result::Result::<T, E>::map_err", "std::result::Result::<T, E>::map", "std::result::Result::<T, E>::or_else", "std::result::Result::<T, E>::and_then") and st.get(m) in ("Ok", "Err") and not (cn.endswith("::or_else") and st[m] == "Err") and not (cn.endswith("::and_then") and st[m] == "Ok"):
+                st[l] = st[m]
+                st[("adt", l)] = "std::result::Result"
             elif cn in ("std::result::Result::<T, E>::is_err", "std::result::Result::<T, E>::is_ok", "std::option::Option::<T>::is_some", "std::option::Option::<T>::is_none"):
                 r = st.get(("ref", m), None)
                 v = st.get(r) if r is not None else None
